@@ -181,6 +181,7 @@ fn replay(sink: &mut common::Sink, toks: &[&str]) {
         "rd" | "rs" => readers::replay(sink, toks),
         "rsa" => readers::replay(sink, toks),
         "anynum" => anynum::replay(sink, toks),
+        "hist32" => c02::replay(sink, toks),
         _ => eprintln!("cannot replay op {}", toks[0]),
     }
 }
